@@ -101,7 +101,7 @@ def a34(ctx, rep):
     gm = [c for c in f['calls'] if c.get('f') == 'get_meta_items']
     lits = [vt.strip(a).get('v') for c in gm for a in c.get('args', []) if isinstance(vt.strip(a), dict) and vt.strip(a).get('k') == 'lit']
     rep.check(lits == ['cfg'], 'A3', 'only-cfg-attributes', 'candidates come from #[cfg(..)] only', f'accept_target_os collects candidates from {lits} attributes', {'file': f['file'], 'line': f['line']})
-    it = ctx.fn('TargetOsIterator::next', file='target_os_check.rs')
+    it = ctx.fnx('TargetOsIterator::next', file='target_os_check.rs')
     site = {'file': it['file'], 'line': it['line']}
     idents = [vt.strip(c['args'][0]).get('v') for c in it['calls'] if c.get('f') == 'is_ident' and c.get('args') and isinstance(vt.strip(c['args'][0]), dict)]
     rep.check(sorted(idents) == ['not', 'target_os'], 'A3', 'only-target_os-keys', 'only `target_os = ".."` yields a candidate; only `not` changes scope', f'TargetOsIterator tests the identifiers {idents}', site)
@@ -142,17 +142,85 @@ def a5(ctx, rep):
     site = {'file': f['file'], 'line': f['line']}
     extra_returns = [r for r in f['returns'] if not any(fr.get('k') == 'if' and 'is_empty' in vt.show(fr['c']) for fr in r['guard'])]
     rep.check(not extra_returns, 'A5', 'no-early-decision', 'the decision is taken once, after all candidates are known', f"accept_target_os returns early (line {extra_returns[0]['line'] if extra_returns else 0}) while candidates are still being streamed: the verdict depends on the order in which cfg predicates are written/visited", site)
-    t = f['tail']
-    while isinstance(t, dict) and t.get('k') == 'var':
-        t = t['v']
-    txt = vt.show(t).replace(' ', '')
-    ok = False
-    if isinstance(t, dict) and t.get('k') == 'op' and t.get('op') == '&&':
-        a, b2 = [x for x in t['args']]
-        neg = [x for x in (a, b2) if isinstance(vt.strip(x), dict) and vt.strip(x).get('k') == 'op' and vt.strip(x).get('op') == '!']
-        pos = [x for x in (a, b2) if x not in neg]
-        ok = len(neg) == 1 and len(pos) == 1
-    rep.check(ok, 'A5', 'decision-shape', '!is_rejected() && is_accepted()', f"accept_target_os decides with `{txt[:120]}` — expected !is_rejected() && is_accepted()", site)
+    # --- the decision formula, read semantically: local closures are expanded, then
+    #     D  =  ¬ any-any(target_os, REJECTED)  ∧  ( ACCEPTED.is_empty() ∨ any-any(target_os, ACCEPTED) )
+    # where ACCEPTED / REJECTED are the two halves of the partition, identified by evaluating the partition predicate
+    # on both scopes — whatever names, closure structure or operand order the code uses.
+    def expand(v, d=0):
+        v = vt.unvar(v)
+        if isinstance(v, dict) and v.get('k') == 'call' and v.get('local_closure') and v.get('result') is not None and d < 20:
+            return expand(v['result'], d + 1)
+        if isinstance(v, dict) and v.get('k') == 'paren':
+            return expand(v.get('v'), d + 1)
+        return v
+
+    def terms(v, op):
+        v = expand(v)
+        if isinstance(v, dict) and v.get('k') == 'op' and v.get('op') == op:
+            return [t2 for x in v['args'] for t2 in terms(x, op)]
+        return [v]
+
+    def half(x):
+        """(index, partition call) when x denotes one half of a `.partition(..)` result."""
+        x = vt.strip(x)
+        while isinstance(x, dict) and x.get('k') in ('ref', 'paren'):
+            x = vt.strip(x.get('v'))
+        if isinstance(x, dict) and x.get('k') == 'field' and str(x.get('name')) in ('0', '1'):
+            pc = vt.strip(x.get('base'))
+            if isinstance(pc, dict) and pc.get('k') == 'call' and pc.get('f') == 'partition':
+                return int(x['name']), pc
+        return None
+
+    def anyany(v):
+        """index of the partition half H when v is `target_os.iter().any(|t| H.iter().any(|(_, os)| os == t))`."""
+        v = expand(v)
+        if not (isinstance(v, dict) and v.get('k') == 'call' and v.get('f') == 'any' and v.get('args')):
+            return None
+        outer = vt.strip(v.get('recv'))
+        if not (isinstance(outer, dict) and outer.get('k') == 'atom' and outer.get('root') == tparam and not outer.get('path')):
+            return None
+        b1 = expand(vt.unvar(v['args'][0]).get('body')) if isinstance(vt.unvar(v['args'][0]), dict) else None
+        if not (isinstance(b1, dict) and b1.get('k') == 'call' and b1.get('f') == 'any' and b1.get('args')):
+            return None
+        h = half(b1.get('recv'))
+        b2 = expand(vt.unvar(b1['args'][0]).get('body')) if isinstance(vt.unvar(b1['args'][0]), dict) else None
+        if h is None or not (isinstance(b2, dict) and b2.get('k') == 'op' and b2.get('op') == '==' and len(b2['args']) == 2):
+            return None
+        sides = [vt.strip(x) for x in b2['args']]
+
+        def from_outer(x):
+            return isinstance(x, dict) and x.get('k') == 'elem' and vt.ckey(x.get('of')) == vt.ckey(v.get('recv'))
+
+        def from_half(x):
+            return isinstance(x, dict) and x.get('k') == 'field' and str(x.get('name')) == '1' and isinstance(vt.strip(x.get('base')), dict) and vt.strip(x['base']).get('k') == 'elem' and vt.ckey(vt.strip(x['base']).get('of')) == vt.ckey(b1.get('recv'))
+        if (from_outer(sides[0]) and from_half(sides[1])) or (from_outer(sides[1]) and from_half(sides[0])):
+            return h
+        return None
+    tparam = next((q['name'] for q in f['params'] if q['name'] != 'attrs'), 'target_os')
+    D = terms(f['tail'], '&&')
+    txt = vt.show(f['tail']).replace(' ', '')
+    negs = [vt.unvar(x) for x in D if isinstance(x, dict) and x.get('k') == 'op' and x.get('op') == '!']
+    poss = [x for x in D if not (isinstance(x, dict) and x.get('k') == 'op' and x.get('op') == '!')]
+    ok = len(D) == 2 and len(negs) == 1 and len(poss) == 1
+    rep.check(ok, 'A5', 'decision-shape', '¬rejected ∧ accepted', f"accept_target_os decides with `{txt[:120]}` — expected ¬(a target is named in reject scope) ∧ (no OS named in accept scope ∨ a target is named in accept scope)", site)
+    rej_half = anyany(negs[0]['args'][0]) if ok else None
+    acc_terms = terms(poss[0], '||') if ok else []
+    acc_any = [anyany(x) for x in acc_terms]
+    acc_empty = [half(vt.unvar(x).get('recv')) for x in acc_terms if isinstance(vt.unvar(x), dict) and vt.unvar(x).get('k') == 'call' and vt.unvar(x).get('f') == 'is_empty']
+    # which half is which: evaluate the partition predicate on both scopes
+    acc_idx = None
+    pcs = [h[1] for h in [rej_half] + acc_any + acc_empty if h]
+    if pcs and pcs[0].get('args'):
+        clo = vt.unvar(pcs[0]['args'][0])
+        body = clo.get('body') if isinstance(clo, dict) and clo.get('k') == 'closure' else None
+
+        def scoped(x, want):
+            x = vt.unvar(x)
+            return want if isinstance(x, dict) and x.get('k') == 'field' and str(x.get('name')) == '0' and isinstance(vt.strip(x.get('base')), dict) and vt.strip(x['base']).get('k') == 'elem' else None
+        pa = vt.unvar(vt.peval(body, lambda sc: scoped(sc, 'Accept')))
+        pr = vt.unvar(vt.peval(body, lambda sc: scoped(sc, 'Reject')))
+        if isinstance(pa, dict) and isinstance(pr, dict) and pa.get('k') == 'lit' and pr.get('k') == 'lit' and pa.get('v') is not pr.get('v'):
+            acc_idx = 0 if pa.get('v') is True else 1
     part = [c for c in f['calls'] if c.get('f') == 'partition']
     ok = len(part) == 1
     if ok:
@@ -160,20 +228,7 @@ def a5(ctx, rep):
         bad = [x for x in chain if x in ('take', 'skip', 'find', 'next', 'take_while', 'skip_while', 'step_by', 'nth', 'first', 'last')]
         ok = not bad and 'flat_map' in chain
     rep.check(ok, 'A5', 'complete-partition', 'all candidates of all attributes are partitioned by scope', 'accept_target_os does not partition the complete candidate stream of all cfg attributes', site)
-    vals = [l['v'] for l in f['lets'] if isinstance(l.get('v'), dict)]
-
-    def closure_body(v):
-        v = vt.strip(v)
-        return v.get('body') if isinstance(v, dict) and v.get('k') == 'closure' else v
-    vac = False
-    rej = False
-    for v in vals:
-        b = closure_body(v)
-        while isinstance(b, dict) and b.get('k') == 'var':
-            b = b['v']
-        if isinstance(b, dict) and b.get('k') == 'op' and b.get('op') == '||' and any(isinstance(vt.strip(x), dict) and vt.strip(x).get('f') == 'is_empty' for x in b['args']) and 'any' in vt.show(b):
-            vac = True
-        if isinstance(b, dict) and b.get('k') == 'call' and b.get('f') == 'any' and 'target_os' in vt.show(b.get('recv')) and 'Reject' in json.dumps(b):
-            rej = True
+    vac = acc_idx is not None and len(acc_terms) == 2 and [h[0] for h in acc_empty if h] == [acc_idx] and [h[0] for h in acc_any if h] == [acc_idx]
+    rej = acc_idx is not None and rej_half is not None and rej_half[0] == 1 - acc_idx
     rep.check(vac, 'A5', 'accepted-vacuous', 'no positive OS named ⇒ accepted', 'the accepted-side test is no longer vacuously true when no OS is named outside not(..): items without a target_os predicate (or with only negative ones) would be dropped', site)
     rep.check(rej, 'A5', 'rejected-any', 'rejected ⇔ some target is named inside not(..)', 'the rejected-side test does not check whether any target is among the candidates found in reject scope', site)
